@@ -152,9 +152,15 @@ def run(pid, tier):
         cres = common.pmap(cxxwl.worker, [{"di": i, "nv": 8 if tier == "quick" else 20, "nb": 0, "props": ["C17"],
                                            "flavours": ["asan"]} for i in range(len(cd))], nproc=8)
         cinfo = _c17(check, cd, cres, "cxx")
-        tot["evals"] += sum(r["evals"] for r in pres) + sum(r["evals"] for r in cres)
-        tot["nontrivial"] = info.pop("nontrivial") | pinfo.pop("nontrivial") | cinfo.pop("nontrivial")
-        extra.update({"rust": info, "python": pinfo, "cxx": cinfo, "backends": ["rust", "python", "cxx"]})
+        from . import javawl
+        jd = javawl.prepare(check, tier, profiles=["bitfield", "inherit", "array", "payload", "enum"],
+                            n_per_profile=1 if tier == "quick" else 4)
+        jres = common.pmap(javawl.worker, [{"di": i, "nv": 8 if tier == "quick" else 20, "nb": 0, "props": ["C17"],
+                                            "serialize_only": True} for i in range(len(jd))], nproc=8)
+        jinfo = _c17(check, jd, jres, "java")
+        tot["evals"] += sum(r["evals"] for r in pres) + sum(r["evals"] for r in cres) + sum(r["evals"] for r in jres)
+        tot["nontrivial"] = info.pop("nontrivial") | pinfo.pop("nontrivial") | cinfo.pop("nontrivial") | jinfo.pop("nontrivial")
+        extra.update({"rust": info, "python": pinfo, "cxx": cinfo, "java": jinfo, "backends": ["rust", "python", "cxx", "java"]})
     else:
         raise SystemExit("unknown rust check " + pid)
     if rc.dropped:
